@@ -53,6 +53,16 @@ fn vf_index_edges_and_closure() {
     let mut sels: Vec<Vec<usize>> = vec![];
     for a in 0..np { for b in 0..np { if a != b { sels.push(vec![a, b]); for c in 0..np { if c != a && c != b { sels.push(vec![a, b, c]); } } } } }
     let mut variant = 0usize;
+    // configurations kept by hand (each was the witness of a seeded change at some point; the generated ones below depend on the pools)
+    let mut all_cfgs: Vec<Vec<(&str, Vec<&str>)>> = vec![
+        vec![("lib", vec!["lib"]), ("app", vec!["lib"])],                          // two targets share a `uses` string that lies inside the first of them
+        vec![("app", vec!["lib"]), ("lib", vec!["lib"])],
+        vec![("app", vec!["app2"]), ("app2", vec![])],                             // a sibling whose name is a string prefix
+        vec![("app2", vec![]), ("app", vec!["app2/src"]), ("lib", vec!["app2"])],
+        vec![("libs/", vec![]), ("libs/core", vec![]), ("app", vec!["libs/util.rs"])],   // a target declared with a trailing slash
+        vec![("app", vec![]), ("app/sub", vec![]), ("app/sub/deep", vec![]), ("lib", vec!["app/sub/deep"])],   // every enclosing target, not just one
+        vec![("lib", vec!["app/sub"]), ("app/sub", vec!["lib2"]), ("app", vec![]), ("lib2", vec!["lib"])],     // a cycle through a nested target
+    ];
     for sel in sels {
         for round in 0..3 {
             variant = variant.wrapping_mul(31).wrapping_add(17 + round);
@@ -64,6 +74,11 @@ fn vf_index_edges_and_closure() {
                 if h % 5 == 0 { uses.push(uses_pool[(h / 5) % uses_pool.len()]); }
                 targets.push((paths[pi], uses));
             }
+            all_cfgs.push(targets);
+        }
+    }
+    for targets in all_cfgs {
+        {
             let cfg = mk_cfg(&targets);
             let n = targets.len();
             // expected relation
